@@ -70,7 +70,7 @@ class BlockParser(Parser[BlockState]):
         ),
         "indent_code": (
             r"^(?: {4}| *\t)[^\n]+(?:\n+|$)"
-            r"((?:(?: {4}| *\t)[^\n]+(?:\n+|$))|\s)*"
+            r"((?:(?: {4}| *\t)[^\n]+(?:\n+|$))|[ \t\v\f]*\n)*"
         ),
         "thematic_break": r"^ {0,3}((?:-[ \t]*){3,}|(?:_[ \t]*){3,}|(?:\*[ \t]*){3,})$",
         "ref_link": r"^ {0,3}\[(?P<reflink_1>" + LINK_LABEL + r")\]:",
